@@ -231,15 +231,15 @@ pub fn mut_int(v: &mut V, rng: &mut Rng) {
 }
 
 fn ulps32(x: f32, n: i32) -> f32 {
-    if !x.is_finite() {
+    if !x.is_finite() || x == 0.0 {
         return x;
     }
-    let b = x.to_bits() as i64;
-    let nb = if x >= 0.0 { b + n as i64 } else { b - n as i64 };
-    if nb < 0 {
-        return -f32::from_bits((-nb) as u32);
-    }
-    f32::from_bits(nb.clamp(0, 0x7F7F_FFFF) as u32 | if x < 0.0 { 0x8000_0000 } else { 0 })
+    // n steps in the magnitude, sign kept (the earlier version added n to the raw bit pattern, which for negative
+    // numbers includes the sign bit and clamped them to -f32::MAX)
+    let b = x.to_bits();
+    let mag = (b & 0x7FFF_FFFF) as i64;
+    let nm = (mag + n as i64).clamp(0, 0x7F7F_FFFF);
+    f32::from_bits((b & 0x8000_0000) | nm as u32)
 }
 
 fn ulps64(x: f64, n: i64) -> f64 {
@@ -319,6 +319,35 @@ pub fn mut_float(v: &mut V, rng: &mut Rng) {
 }
 
 /// small perturbation that keeps the value near where it was (off-grid but in range)
+/// every real leaf moved by one unit in the last place (f32) / one to three (f64); `dir` 0 = random sign per leaf,
+/// 1 = all up, 2 = all down.  Far below half a resolution step of every field in the tree (f32 fields have at most
+/// 20 bits, f64 fields at most 38), so the encoding may not change.
+pub fn ulp_all_floats(v: &mut V, rng: &mut Rng, dir: u32) -> usize {
+    let mut n = 0;
+    walk_mut(v, ("", ""), &mut |node, site, _| {
+        if site == Site::Float {
+            let up = match dir {
+                1 => true,
+                2 => false,
+                _ => rng.bool(),
+            };
+            match node {
+                V::F32(x) if x.is_finite() => {
+                    *x = ulps32(*x, if up { 1 } else { -1 });
+                    n += 1;
+                }
+                V::F64(x) if x.is_finite() => {
+                    let k = rng.range(1, 3);
+                    *x = ulps64(*x, if up { k } else { -k });
+                    n += 1;
+                }
+                _ => {}
+            }
+        }
+    });
+    n
+}
+
 pub fn nudge_float(v: &mut V, rng: &mut Rng) {
     match v {
         V::F32(x) => {
